@@ -680,6 +680,48 @@ pub fn do_op<K: KeyT, V: ValT>(m: &mut Map<K, V>, w: &[&str], chk: &mut Vec<Stri
                 }
             }
         }
+        "getmanymut" => {
+            // getmanymut <add> k1 .. kN  (N <= 4): get_many_key_value_mut, every returned value += add;
+            // then get_many_mut with the same keys must see the same entries
+            let add = n(1);
+            let ks: Vec<K> = w[2..].iter().map(|s| K::mk(parse_u64(s), 999)).collect();
+            fn fin<K: KeyT, V: ValT, const N: usize>(r: [Option<(&K, &mut V)>; N], add: u64, chk: &mut Vec<String>) -> Vec<Option<(u64, u64, u64)>> {
+                let mut out = Vec::new();
+                let mut addrs: Vec<usize> = Vec::new();
+                for o in r {
+                    match o {
+                        Some((k, v)) => {
+                            let a = v as *mut V as usize;
+                            if std::mem::size_of::<V>() > 0 && addrs.contains(&a) {
+                                chk.push("get_many_mut returned two mutable references to the same entry".into());
+                            }
+                            addrs.push(a);
+                            let nv = v.val().wrapping_add(add);
+                            v.set(nv);
+                            out.push(Some((k.id(), k.stamp(), nv)));
+                        }
+                        None => out.push(None),
+                    }
+                }
+                out
+            }
+            fn vals<V: ValT, const N: usize>(r: [Option<&mut V>; N]) -> Vec<Option<u64>> {
+                r.into_iter().map(|o| o.map(|v| v.val())).collect()
+            }
+            let (got, again) = match ks.len() {
+                0 => (fin::<K, V, 0>(m.get_many_key_value_mut::<K, 0>([]), add, chk), vals::<V, 0>(m.get_many_mut::<K, 0>([]))),
+                1 => (fin::<K, V, 1>(m.get_many_key_value_mut([&ks[0]]), add, chk), vals::<V, 1>(m.get_many_mut([&ks[0]]))),
+                2 => (fin::<K, V, 2>(m.get_many_key_value_mut([&ks[0], &ks[1]]), add, chk), vals::<V, 2>(m.get_many_mut([&ks[0], &ks[1]]))),
+                3 => (fin::<K, V, 3>(m.get_many_key_value_mut([&ks[0], &ks[1], &ks[2]]), add, chk), vals::<V, 3>(m.get_many_mut([&ks[0], &ks[1], &ks[2]]))),
+                _ => (fin::<K, V, 4>(m.get_many_key_value_mut([&ks[0], &ks[1], &ks[2], &ks[3]]), add, chk), vals::<V, 4>(m.get_many_mut([&ks[0], &ks[1], &ks[2], &ks[3]]))),
+            };
+            let want: Vec<Option<u64>> = got.iter().map(|o| o.map(|x| x.2)).collect();
+            if want != again {
+                chk.push("get_many_mut and get_many_key_value_mut disagree".into());
+            }
+            let parts: Vec<String> = got.iter().map(|o| match o { Some((k, s, v)) => format!("{}:{}:{}", k, s, v), None => "none".into() }).collect();
+            return OutRaw(format!("opts {}", if parts.is_empty() { "-".to_string() } else { parts.join(",") }));
+        }
         "len" => Out::Num(m.len() as u128),
         "capacity" => Out::Num(m.capacity() as u128),
         "allocsize" => Out::Num(m.allocation_size() as u128),
